@@ -549,3 +549,12 @@ TEXT = {
         "level_note": "Trusted: harness/refmatch. Depth <= 3, tiny alphabets; data strings starting with '?' excluded (fatal recursion in the dependency, see C13).",
     },
 }
+
+# The world-based sequential checks also run with the cron state hooks installed.
+_HOOKS_NOTE = (" In a third of the cases (half for C04) the cron state hooks are installed on the states, as sys.System installs "
+               "them on every location it serves: adds the hook refuses must leave no trace, removals of absent ids are reported "
+               "as not-found and remove nothing.")
+for _p in ("C01", "C02", "C04", "C08", "C10"):
+    PROPS[_p]["rule"] += _HOOKS_NOTE
+PROPS["C04"]["rule"] += (" A further action kind writes a fact of its own (Env.AddFact) per execution; the facts found afterwards "
+                         "must be exactly those of the expected executions.")
